@@ -99,6 +99,8 @@ def i_bytearray(*a):
     if not a:
         return NotImplemented
     x = a[0]
+    if isinstance(x, core.FillList):
+        return SymSeq([Fill(x.value, toint(x.count))], "bytearray")
     if isinstance(x, SymSeq):
         return SymSeq(x.items, "bytearray")
     if isinstance(x, (list, tuple)) and _list_has_sym(x):
@@ -113,6 +115,8 @@ def i_bytes(*a):
     if not a:
         return NotImplemented
     x = a[0]
+    if isinstance(x, core.FillList):
+        return SymSeq([Fill(x.value, toint(x.count))], "bytes")
     if isinstance(x, SymSeq):
         return SymSeq(x.items, "bytes")
     if isinstance(x, (list, tuple)) and _list_has_sym(x):
@@ -651,7 +655,13 @@ def _has_symkey(d):
     return False
 
 
+def _symtuple(k):
+    return isinstance(k, tuple) and any(isinstance(e, Sym) for e in k)
+
+
 def sx_in(a, b):
+    if _symtuple(a) and isinstance(b, dict):
+        return _dict_find(b, a) is not _MISSING
     if isinstance(a, SymInt):
         if isinstance(b, range) and b.step == 1:
             return SymBool(z3.And(a.t >= b.start, a.t < b.stop))
@@ -698,6 +708,11 @@ def sx_in(a, b):
 
 
 def sx_getitem(d, k):
+    if _symtuple(k) and isinstance(d, dict):
+        x = _dict_find(d, k)
+        if x is _MISSING:
+            raise KeyError("<sym>")
+        return d[x]
     if isinstance(k, Sym):
         if isinstance(d, dict):
             x = _dict_find(d, k)
@@ -730,7 +745,7 @@ def sx_getitem(d, k):
 
 
 def sx_setitem(d, k, v):
-    if isinstance(k, Sym) and isinstance(d, dict):
+    if (isinstance(k, Sym) or _symtuple(k)) and isinstance(d, dict):
         x = _dict_find(d, k)
         if x is not _MISSING:
             d[x] = v
@@ -746,7 +761,7 @@ def sx_setitem(d, k, v):
 
 
 def sx_delitem(d, k):
-    if isinstance(d, dict) and (isinstance(k, Sym) or _has_symkey(d)):
+    if isinstance(d, dict) and (isinstance(k, Sym) or _symtuple(k) or _has_symkey(d)):
         x = _dict_find(d, k)
         if x is _MISSING:
             raise KeyError("<sym>" if isinstance(k, Sym) else k)
